@@ -332,7 +332,7 @@ impl<'h, 'f, B: Backend> Cx<'h, 'f, B> {
         for pc in &self.pieces {
             let want = &self.h.as_bytes()[pc.off as usize..(pc.off + pc.len) as usize];
             let got = pc.p.as_bytes();
-            if got != want || pc.p.is_borrowed() != self.src_borrowed {
+            if got != want {
                 bad.push((
                     pc.call,
                     format!("piece {} {stage}", hex(want)),
@@ -879,9 +879,10 @@ fn account(st: &mut Stats, h: &str, kind: Kind, bk: Bk, sample: Option<u64>) {
     }
     for f in fails {
         st.total_fails += 1;
-        // one report per (kind/check, method): the shortest haystack, first pattern in enumeration order
+        // one report per (impl-vs-oracle, method): the shortest haystack, first pattern in enumeration order
+        // (monitor checks: one per check class)
         let method = f.label.split(|c| c == ' ' || c == '[').next().unwrap_or("");
-        let key = format!("{} {method}", f.kind);
+        let key = if f.kind.starts_with("monitor") { f.kind.to_string() } else { format!("{} {method}", f.kind) };
         let better = st.found.get(&key).map_or(true, |(old, ..)| h.len() < old.len());
         if better {
             st.found.insert(key, (h.to_string(), kind, bk, f));
